@@ -55,6 +55,18 @@ theorem GXC3b.pop {B x : Nat} {r : WReq} {q : List WReq} {p p' : List Nat} {safe
       exact Or.inl ⟨pre', suf, e2, h2, ⟨r0, q0, h3, h4⟩, h5⟩
   · exact Or.inr ⟨h1.tail, h2, hp h2 h3⟩
 
+/-- An empty removal request in front changes nothing (the retried removal behind a batch). -/
+theorem GXC3b.consNilD14 {B x : Nat} {q : List WReq} {p : List Nat} {safe : Prop}
+    (h : GXC3b B x q p safe) : GXC3b B x (.removeChunks [] :: q) p safe := by
+  rcases h with ⟨pre, suf, h1, h2, h3, h5⟩ | ⟨h1, h2, h3⟩
+  · exact Or.inl ⟨.removeChunks [] :: pre, suf, by rw [h1]; rfl, h2, h3, h5⟩
+  · refine Or.inr ⟨?_, h2, ?_⟩
+    · intro r hr hw
+      rcases List.mem_cons.mp hr with e | e
+      · subst e; cases hw
+      · exact h1 r e hw
+    · simpa [rmIds] using h3
+
 /-- The worker takes a batch of writes from the front. -/
 theorem GXC3b.batch {B x : Nat} {b rest : List WReq} {p : List Nat} {safe : Prop}
     (h : GXC3b B x (b ++ rest) p safe) (hb : ∀ r ∈ b, r.isWrite = true) (hne : b ≠ []) :
@@ -152,17 +164,22 @@ theorem finishBatch_guardAt_C3b {B x : Nat} (c : WCtx) (b : List WReq) (t : Opti
     (ht : tailOK t) (h : GXC3b B x (t.toList ++ c.w.queue) c.w.postponed (ok = false))
     (hnd : (c.finishBatch b t ok).w.pc ≠ .dead) : WGuardAtC3b B x (c.finishBatch b t ok).w := by
   rw [WCtx.finishBatch_eq] at hnd ⊢
+  have h0 := h.mono (safe' := (!ok) = true) (by intro e; rw [e]; rfl)
   cases t with
   | none =>
-    simp only at hnd ⊢
-    apply toRecv_guardAt_C3b _ _ hnd
-    have := h.mono (safe' := (!ok) = true) (by intro e; rw [e]; rfl)
-    simpa using this
+    apply nonFlush_guardAt_C3b _ _ rfl _ hnd
+    simpa using h0.consNilD14
   | some r =>
-    simp only at hnd ⊢
-    apply nonFlush_guardAt_C3b _ r (ht r rfl) _ hnd
-    have := h.mono (safe' := (!ok) = true) (by intro e; rw [e]; rfl)
-    simpa using this
+    cases r with
+    | write u d cb => exact absurd (ht _ rfl) (by simp [WReq.isWrite])
+    | removeChunks ids =>
+      apply nonFlush_guardAt_C3b _ _ rfl _ hnd
+      simpa using h0
+    | appendFile n p =>
+      apply nonFlush_guardAt_C3b _ _ rfl _ hnd
+      have h1 : GXC3b B x c.w.queue c.w.postponed ((!ok) = true) :=
+        GXC3b.pop (r := .appendFile n p) (by simpa using h0) rfl (fun _ k => by simpa [rmIds] using k)
+      simpa using h1.consNilD14
 
 theorem startSync_guardAt_C3b {B x : Nat} (c : WCtx) (b : List WReq) (t : Option WReq)
     (hf : c.w.files ≠ [])
